@@ -326,8 +326,10 @@ def _chunk_case(repo, it, S, spec):
         # chromosome: the same window on the opposite strand, and a shifted window
         for what, (cs2, ce2, cstr) in (("same window, opposite strand", (cs, ce, "MINUS")),
                                        ("shifted window", (max(0, cs - 2), min(len(GENOME), ce + 1), "PLUS")),
-                                       ("same chunk", (cs, ce, "PLUS"))):
-            cp2 = chunk_parent(it, GENOME, cs2, ce2, alphabet=ALPHA, strand=cstr)
+                                       ("same chunk", (cs, ce, "PLUS")),
+                                       ("whole chromosome", (0, len(GENOME), "CHROM"))):
+            # (the last target is the chromosome itself, as io.parser.seq_to_parent builds it: back to chromosome coordinates)
+            cp2 = chrom_parent(it, GENOME, alphabet=ALPHA) if cstr == "CHROM" else chunk_parent(it, GENOME, cs2, ce2, alphabet=ALPHA, strand=cstr)
             n += 1
             k4, v4 = run(it, f, [v, cp2], {}, None)
             inside2 = [p for p in inside if cs2 <= p < ce2]
@@ -497,3 +499,13 @@ RULES = [
     ("C04.RC", rc_chunks),
     ("C04.R1", r1_refusals),
 ]
+
+def r6i_identity(ctx):
+    """locations on equal parents are comparable whether or not the two Parent objects are the same object (the constructor cache
+    holds 1000 entries; an equal parent built later, or spelled with its keyword arguments in another order, is another object):
+    no identity comparison between Parent / Location / Sequence values outside an equality fast path (shared with C10.R6)"""
+    from .c10 import r6_identity
+    r6_identity(ctx, rule="C04.R6i")
+
+
+RULES.append(("C04.R6i", r6i_identity))
